@@ -4,7 +4,8 @@
    back to the abstract domain by the driver (-1 = bits outside the embedding were set, -2 = None / no bucket):
      dab dba dac dbc = distances, fd = for_distance(a, d(a,b)), il = ilog2(d(a,b)) as abstract bit index,
      bidx = abstract index of the bucket in which b landed in a table whose local key is a, tri = triangle inequality
-     evaluated with 256-bit arithmetic.  TLC recomputes the expected values.
+     evaluated with 256-bit arithmetic, brange = abstract index of the bucket KBucketsTable::bucket(b) returns (its range
+     must be [2^i, 2^(i+1) - 1] and hold the distance; -2 = no bucket: the local key).  TLC recomputes the expected values.
    Wide records (random / edge 256-bit keys): the laws evaluated by the driver with U256 arithmetic must all hold. *)
 EXTENDS TraceIO, Integers
 VARIABLE x
@@ -19,12 +20,13 @@ Emb(r) ==
   /\ (r.dab = 0) = (r.a = r.b)
   /\ r.tri /\ (r.contig => r.dac <= r.dab + r.dbc)
   /\ r.fd = r.b
-  /\ IF r.a = r.b THEN r.il = -2 /\ r.self /\ ~r.insok /\ r.bidx = -2
-     ELSE r.il = Ilog2(d) /\ ~r.self /\ r.insok /\ r.bidx = Ilog2(d)
+  /\ IF r.a = r.b THEN r.il = -2 /\ r.self /\ ~r.insok /\ r.bidx = -2 /\ r.brange = -2
+     ELSE r.il = Ilog2(d) /\ ~r.self /\ r.insok /\ r.bidx = Ilog2(d) /\ r.brange = Ilog2(d)
 Wide(r) ==
   /\ r.sym /\ r.tri /\ r.uni /\ r.fdinv /\ r.xor /\ r.ilok /\ r.other_dist_differs
   /\ r.zero = r.eq
-  /\ IF r.eq THEN r.self /\ r.bidx = -1 /\ r.il = -1 ELSE ~r.self /\ r.bidx = r.il /\ r.il \in 0..255
+  /\ IF r.eq THEN r.self /\ r.bidx = -1 /\ r.il = -1 /\ r.brange = -1
+     ELSE ~r.self /\ r.bidx = r.il /\ r.il \in 0..255 /\ r.brange = r.il
 Post(r) == ~Has(r, "panic") /\ (IF Has(r, "wide") THEN Wide(r) ELSE Emb(r))
 ASSUME PrintT(<<"CHECKED", ToJson([n |-> NRec])>>)
 ASSUME \A i \in 1..NRec : Post(Rec[i]) \/ PrintT(<<"BAD", ToJson([line |-> i, why |-> "metric law / bucket index"])>>)
